@@ -8,6 +8,7 @@
 pub mod choose;
 pub mod exec;
 pub mod report;
+pub mod watchdog;
 
 pub use choose::{explore, Chooser, ExploreCfg, ExploreStats, Kind, RunOutcome};
 pub use exec::{Exec, StepResult, TaskId};
